@@ -1,4 +1,5 @@
 import RV.Proofs.TreePids
+import RV.Gen.TreeLint
 /-!
 # C10 — z.Tree is a correct uint64 map with an exact DeleteBelow
 
@@ -226,6 +227,21 @@ theorem c10_abs (cfg : Cfg) (hc : CfgOk cfg) (ops : List Op) (hl : ∀ op ∈ op
       intro pre hpre
       exact hb (op :: pre) (List.cons_prefix_cons.mpr ⟨rfl, hpre⟩)
   exact key ops (newTree cfg) _ h0.1 (reset_pidInv hc _) (funext fun k => abs_of_toList_sentinel h0.2 k) hl hb
+
+/-! ## Static obligation on z/btree.go: no write through a stale node slice
+
+A `node` is a slice into the backing buffer; every call that may allocate a page (`newNode`,
+`split`, `set`, `Set`, … — the call graph is computed from `Buffer.AllocateOffset/Allocate/Grow`)
+may move that buffer.  The structural model has no notion of a stale slice, so this is checked
+on the source itself: `go2lean/treelint.go` walks every function of btree.go and lists the uses
+of `node` variables that were obtained before such a call and not re-read (`x = t.node(…)`).
+A *write* through a stale node is a lost update (the seeded bug C10-1: the root rewritten in the
+discarded buffer); the list must be empty. -/
+theorem c10_no_stale_node_writes : Gen.TreeLint.staleNodeWrites = [] := rfl
+
+/-- the lint's call graph did find the allocating functions (non-vacuity of the obligation) -/
+example : "Tree.newNode" ∈ Gen.TreeLint.movingFunctions ∧ "Tree.split" ∈ Gen.TreeLint.movingFunctions ∧
+    "Tree.set" ∈ Gen.TreeLint.movingFunctions ∧ "Tree.Set" ∈ Gen.TreeLint.movingFunctions := by decide
 
 /-- Non-vacuity of the hypotheses: page size 80 (`maxKeys = 4`) is covered, the empty tree
 satisfies the invariant, and twelve inserts build a tree of height 3 (root split twice) on which
